@@ -10,6 +10,11 @@ use bytes::Bytes;
 fn f64_canon(v: f64) -> String {
     if v.is_nan() {
         "F:NaN".to_string()
+    } else if v == 0.0 {
+        // -0.0 and +0.0 are numerically equal; the Parquet dictionary encoder (trusted base)
+        // occasionally merges them (hash-table equality on f64), so the sign of zero is not
+        // part of a row's identity here
+        "F:0".to_string()
     } else {
         format!("F:{:016x}", v.to_bits())
     }
